@@ -4,6 +4,7 @@ import (
 	"bytes"
 	"compress/gzip"
 	"context"
+	"crypto/ecdsa"
 	"encoding/base64"
 	"fmt"
 	"io"
@@ -35,6 +36,7 @@ import (
 	"golang.org/x/crypto/ssh"
 
 	"verif/crash"
+	"verif/enum"
 )
 
 type stubNetwork struct {
@@ -54,7 +56,7 @@ var ambSeq int
 
 func newAmbFix(t *testing.T) *ambFix {
 	ambSeq++
-	dir := filepath.Join(os.TempDir(), fmt.Sprintf("c19amb%d", ambSeq))
+	dir := filepath.Join(os.TempDir(), fmt.Sprintf("c19amb-%d-%d", os.Getpid(), ambSeq))
 	_ = os.MkdirAll(dir, 0o755)
 	db, err := bbolt.CreateBBoltStore(filepath.Join(dir, "didstore.db"), stoabs.WithNoSync())
 	if err != nil {
@@ -174,6 +176,143 @@ func init() {
 				raw := mustJSON(d)
 				return raw, call(raw, update)
 			}, setup)
+		}
+	})
+
+	// ---- sequences: two documents exist (A, B), a third DID (N) was never created. The second transaction's signer DID,
+	// payload DID and prevs range over {A, B, N} independently, for creations (embedded jwk) and updates (kid).
+	register("didnuts-ambassador-seq", func(t *testing.T, s *crash.Sweep, thorough bool) {
+		name := "didnuts.ambassador.callback(sequence)"
+		if !s.WantEntry(name) {
+			return
+		}
+		keyC := crash.FixedKey(1, 3)
+		type party struct {
+			key *ecdsa.PrivateKey
+			doc map[string]any
+			id  string
+			kid string
+		}
+		mkParty := func(k0, k1 *ecdsa.PrivateKey) party {
+			d := nutsDocFor(k0, k1)
+			return party{key: k0, doc: d, id: d["id"].(string), kid: d["assertionMethod"].([]any)[0].(string)}
+		}
+		parties := map[string]party{"A": mkParty(keyA, keyB), "B": mkParty(keyB, keyC), "N": mkParty(keyC, keyA)}
+		header := func(signer party, update bool, prevs []hash.SHA256Hash, lc uint32) map[string]any {
+			h := txHeader(prevs, lc, !update, nil)
+			if update {
+				h["kid"] = signer.kid
+			} else {
+				h["jwk"] = crash.PublicJWK(signer.key)
+			}
+			return h
+		}
+		var fix *ambFix
+		created := map[string]dag.Transaction{}
+		setup := func() {
+			fix = newAmbFix(t)
+			for _, n := range []string{"A", "B"} {
+				p := parties[n]
+				raw := mustJSON(p.doc)
+				tx, _ := mustTxPayloadHash(header(p, false, nil, 0), raw)
+				if err := didnuts.VerifAmbassadorCallback(fix.amb, tx, raw); err != nil {
+					t.Fatalf("harness: creation of %s refused: %v", n, err)
+				}
+				created[n] = tx
+			}
+		}
+		setup()
+		digest := func() string {
+			n, _ := fix.store.DocumentCount()
+			c, _ := fix.store.ConflictedCount()
+			out := fmt.Sprintf("%d/%d", n, c)
+			for _, pn := range []string{"A", "B", "N"} {
+				d, md, err := fix.store.Resolve(mustDID(parties[pn].id), &resolver.ResolveMetadata{AllowDeactivated: true})
+				if err != nil {
+					out += "/-"
+					continue
+				}
+				out += fmt.Sprintf("/%s:%d:%s", md.Hash, len(md.SourceTransactions), hash.SHA256Sum(mustJSON(d)))
+			}
+			return out
+		}
+		baseline := digest()
+		unknownRef := hash.SHA256Sum([]byte("never seen transaction"))
+		step := func(signer party, update bool, prevName string, payload []byte) string {
+			var prevs []hash.SHA256Hash
+			lc := uint32(1)
+			switch prevName {
+			case "A", "B":
+				prevs = []hash.SHA256Hash{created[prevName].Ref()}
+			case "N":
+				prevs = []hash.SHA256Hash{unknownRef}
+			case "A+B":
+				prevs = []hash.SHA256Hash{created["A"].Ref(), created["B"].Ref()}
+			case "none":
+				lc = 0
+			}
+			tx, _ := mustTxPayloadHash(header(signer, update, prevs, lc), payload)
+			before := digest()
+			if err := didnuts.VerifAmbassadorCallback(fix.amb, tx, payload); err != nil {
+				if after := digest(); after != before {
+					return fmt.Sprintf("!state-changed: rejected DID document changed the DID store: %s -> %s (%v)", before, after, err)
+				}
+				return "rejected"
+			}
+			// what the node does with stored documents afterwards
+			for _, pn := range []string{"A", "B", "N"} {
+				id := mustDID(parties[pn].id)
+				_, _, _ = fix.store.Resolve(id, nil)
+				_, _, _ = (resolver.DIDKeyResolver{Resolver: didnuts.Resolver{Store: fix.store}}).ResolveKey(id, nil, resolver.CapabilityInvocation)
+			}
+			return "ok"
+		}
+		prev := s.OnAbandon
+		s.OnAbandon = setup
+		defer func() { s.OnAbandon = prev }()
+		run := func(desc string, signerName string, update bool, prevName string, payload func() []byte) {
+			res, ran := s.Case(name, desc, true, true, func() ([]byte, func() string) {
+				if digest() != baseline {
+					// an earlier accepted transaction changed the store: every case starts from {A, B}
+					_ = fix.db.Close(context.Background())
+					setup()
+				}
+				raw := payload()
+				return raw, func() string { return step(parties[signerName], update, prevName, raw) }
+			})
+			if ran && (res.Panicked || res.TimedOut) {
+				setup()
+			}
+		}
+		kinds := map[bool]string{false: "create", true: "update"}
+		for _, update := range []bool{false, true} {
+			for _, signer := range []string{"A", "B", "N"} {
+				for _, payloadDID := range []string{"A", "B", "N"} {
+					for _, prevName := range []string{"A", "B", "N", "A+B", "none"} {
+						update, signer, payloadDID, prevName := update, signer, payloadDID, prevName
+						run(fmt.Sprintf("%s/signer=%s/payload=%s/prevs=%s/valid", kinds[update], signer, payloadDID, prevName), signer, update, prevName, func() []byte { return mustJSON(parties[payloadDID].doc) })
+					}
+				}
+			}
+		}
+		// every single mutant of the documents of A and N, for the signer / prevs combinations
+		for _, payloadDID := range []string{"A", "N"} {
+			for _, m := range enum.Singles(parties[payloadDID].doc, enum.Options{ExtremeInts: true}) {
+				for _, update := range []bool{false, true} {
+					for _, signer := range []string{"A", "B", "N"} {
+						for _, prevName := range []string{"A", "B", "N"} {
+							if !update && signer != payloadDID && prevName != "A" {
+								continue // a creation is judged on signer == document id before prevs matter
+							}
+							m, update, signer, prevName := m, update, signer, prevName
+							run(fmt.Sprintf("%s/signer=%s/payload=%s/prevs=%s/%s", kinds[update], signer, payloadDID, prevName, m.Desc()), signer, update, prevName, func() []byte { return mustJSON(m.Doc) })
+						}
+					}
+				}
+				if s.Stopped() {
+					return
+				}
+			}
 		}
 	})
 
